@@ -19,6 +19,9 @@ const OP_RESET_SOME_SIZE: u64 = 3;
 const OP_DECOMP_SRC_FAULT: u64 = 4;
 /// (arg >> 8) times: reset (re-specifying the size stream (arg & 0xFF) needs), decompress it
 const OP_CYCLE: u64 = 5;
+/// decompress stream (arg & 0xFF) into a sink that fails: ((arg >> 8) & 0xFF) = k-th write
+/// call fails (0 = none), bit 16 = the first flush fails
+const OP_DECOMP_SINK_FAULT: u64 = 6;
 
 fn gen(t: &mut Tape, tier: Tier) -> Scenario {
     let mut sc = Scenario::new("c14");
@@ -133,6 +136,11 @@ fn gen(t: &mut Tape, tier: Tier) -> Scenario {
             // the upstream dies half-way through a decode (I/O error, not corruption)
             let k = t.range(1, 60);
             ops.extend_from_slice(&[OP_DECOMP_SRC_FAULT, (k << 8) | t.below(nstreams as u64)]);
+        } else if r == 5 && t.below(2) == 0 {
+            // the downstream dies: a write call or the final flush of the sink fails
+            let k = if t.below(3) == 0 { 0 } else { t.range(1, 4) };
+            let fl = if k == 0 { 1 } else { t.below(2) };
+            ops.extend_from_slice(&[OP_DECOMP_SINK_FAULT, (fl << 16) | (k << 8) | t.below(nstreams as u64)]);
         } else if lzma2 || r == 5 {
             ops.extend_from_slice(&[OP_RESET_NONE, 0]);
         } else if r == 6 {
@@ -203,6 +211,7 @@ fn exec(sc: &Scenario, ctx: &mut Ctx) -> Vec<Violation> {
     let mut compared = 0u64;
     let mut dirty_compared = 0u64;
     let mut io_dirty = 0u64;
+    let mut sink_dirty = 0u64;
     let r = guarded(|| {
         let mut d1 = if lzma2 { None } else { LzmaDecoder::new(params(cur_size), memlimit).ok() };
         let mut d2 = if lzma2 { Some(Lzma2Decoder::new()) } else { None };
@@ -275,6 +284,26 @@ fn exec(sc: &Scenario, ctx: &mut Ctx) -> Vec<Violation> {
                     }
                     just_reset = false;
                 }
+                OP_DECOMP_SINK_FAULT => {
+                    let data = streams[((p[1] & 0xFF) as usize).min(streams.len() - 1)];
+                    let k = (p[1] >> 8) & 0xFF;
+                    let wf = crate::env::Faults::one(k, crate::env::FK_OTHER);
+                    let ff = if p[1] >> 16 & 1 == 1 { crate::env::Faults::one(1, crate::env::FK_OTHER) } else { crate::env::Faults::none() };
+                    let (mut sink, _h) = crate::env::SimSink::new(None, &[], wf, ff);
+                    let mut r: &[u8] = data;
+                    let v = if let Some(d) = d1.as_mut() {
+                        err_kind(d.decompress(&mut r, &mut sink))
+                    } else if let Some(d) = d2.as_mut() {
+                        err_kind(d.decompress(&mut r, &mut sink))
+                    } else {
+                        Verdict::Err("constructor refused".into())
+                    };
+                    if !v.is_ok() {
+                        dirty = true;
+                        sink_dirty += 1;
+                    }
+                    just_reset = false;
+                }
                 OP_RESET_NONE => {
                     if let Some(d) = d1.as_mut() {
                         d.reset(None);
@@ -310,6 +339,7 @@ fn exec(sc: &Scenario, ctx: &mut Ctx) -> Vec<Violation> {
     ctx.stats.add("probe.reset_then_decompress_compared_with_fresh_decoder", compared);
     ctx.stats.add("probe.compared_after_a_decode_failed_half_way", dirty_compared);
     ctx.stats.add("fault.fired.source_error_in_the_middle_of_a_decode", io_dirty);
+    ctx.stats.add("fault.fired.sink_error_during_a_decode_or_at_its_final_flush", sink_dirty);
     if cycles > 2 {
         ctx.stats.hit("arm.many_reuse_cycles");
         ctx.stats.max("max_reuse_cycles_of_one_decoder", cycles);
@@ -335,7 +365,7 @@ fn exec(sc: &Scenario, ctx: &mut Ctx) -> Vec<Violation> {
 pub static C14: SimpleProp = SimpleProp {
     id: "C14",
     level: "exploration",
-    rule: "one evaluation = one history of 4-12 operations (or, 1 run in 24, of A, k x (reset, B), reset, A with k up to 1025 - 65537 in the thorough tier - reuse cycles) {decompress stream i (valid, bit-flipped, truncated, spliced, or cut short by an injected source error after k one-byte refills), reset(None), reset(Some(None)), reset(Some(Some(n))) with n = a stream's size, ±1, or 0 / 2^32 / 2^63 / 2^64-1} on a single raw::LzmaDecoder (any lc/lp/pb, dictionary 1..65536; a third constructed with a memory limit, which every fresh decoder then shares) or raw::Lzma2Decoder (streams with changing properties); after every reset the next decompress is compared (verdict, bytes, consumed count) with a freshly constructed decoder with the same parameters and the size last specified; non-trivial = at least one such comparison; distinct by scenario hash",
+    rule: "one evaluation = one history of 4-12 operations (or, 1 run in 24, of A, k x (reset, B), reset, A with k up to 1025 - 65537 in the thorough tier - reuse cycles) {decompress stream i (valid, bit-flipped, truncated, spliced, or cut short by an injected source error after k one-byte refills, or by the sink failing at its k-th write or at the final flush), reset(None), reset(Some(None)), reset(Some(Some(n))) with n = a stream's size, ±1, or 0 / 2^32 / 2^63 / 2^64-1} on a single raw::LzmaDecoder (any lc/lp/pb, dictionary 1..65536; a third constructed with a memory limit, which every fresh decoder then shares) or raw::Lzma2Decoder (streams with changing properties); after every reset the next decompress is compared (verdict, bytes, consumed count) with a freshly constructed decoder with the same parameters and the size last specified; non-trivial = at least one such comparison; distinct by scenario hash",
     runs_quick: 120_000,
     runs_thorough: 6_000_000,
     both_profiles: false,
